@@ -126,6 +126,18 @@ FEATURES = {
                                         {"name": "xApiKey", "in": "header", "required": True, "schema": {"type": "string"}}, {"name": "x_tenant.id", "in": "header", "schema": {"type": "string"}},
                                         {"name": "sort", "in": "query", "schema": {"type": "string", "enum": ["asc", "Desc"]}},
                                         {"name": "kind", "in": "path", "required": True, "schema": {"type": "string", "enum": ["cat", "Dog"]}}]),
+    # the FORMAT vocabulary (standard names and the spellings people write instead) on constrained, required strings: the type
+    # mapping and the validation extraction each decide on the format with a list of their own
+    "format-vocabulary": featgen.wrap({"A": OBJ({("f%d" % i): {"type": "string", "format": fmt, "minLength": 1, "maxLength": 40} for i, fmt in enumerate(
+        ["date-time", "date", "time", "duration", "uuid", "byte", "binary", "email", "uri", "url", "hostname", "ipv4", "ipv6", "password", "datetime", "date_time", "DateTime", "dateTime",
+         "timestamp", "int64", "decimal", "uuid4", "UUID", "date-time ", "", "iso-date-time", "unix-time", "float", "double", "int32", "char", "regex", "json-pointer"])},
+        ["f%d" % i for i in range(33)])}, body="A", resp="A"),
+    "format-vocabulary-opt": featgen.wrap({"A": OBJ({("g%d" % i): {"type": ["string", "null"], "format": fmt, "pattern": "^.+$"} for i, fmt in enumerate(
+        ["date-time", "uuid", "datetime", "date_time", "DateTime", "timestamp", "int64", "uuid4", "date", "time"])})}, body="A", resp="A"),
+    # helper constructors of unions / Known-Other enums whose member names differ only in case or separators
+    "helper-name-collisions": featgen.wrap({"Region": {"anyOf": [{"type": "string", "enum": ["eu-west", "EU-WEST", "eu_west", "us"]}, {"type": "string"}]},
+                                            "Kind": {"anyOf": [{"type": "string", "enum": ["a-b", "a_b", "A B"]}, {"type": "string"}]},
+                                            "A": OBJ({"r": S("Region"), "k": S("Kind")})}, body="A", resp="A"),
 }
 # features whose interesting cell is a non-default enum mode
 ENUM_MODES = ("merge", "preserve", "relaxed")
@@ -254,7 +266,7 @@ def arena(ctx, n_random, per_round=120):
         for mode in (["client-mod", "server-mod"] if ctx.quick else featgen.MODES):
             cases.append(gen_case(FEATURES[f], mode, {"vis": "public", "enum_mode": "merge", "builders": f == "param-clash"}, code=True))
     cases += array_a_cases(ctx)
-    for f in ("enum-params", "union-cycle", "union-cycle-any"):
+    for f in ("enum-params", "union-cycle", "union-cycle-any", "helper-name-collisions"):
         for mode in ("client-mod", "server-mod"):
             for em in ("relaxed", "preserve"):
                 cases.append(gen_case(FEATURES[f], mode, {"vis": "public", "enum_mode": em}, code=True))
